@@ -3,6 +3,7 @@ package main
 import (
 	"fmt"
 	"go/constant"
+	"go/types"
 	"regexp"
 	"strings"
 	"unicode"
@@ -154,6 +155,7 @@ func checkC07(c *Ctx) {
 		}
 		r.Ob("ESCAPES", "multiline mode keeps every byte as it is", t.Pos(uq.Pos()), ok, fmt.Sprintf("%d outcomes, all without error", len(outs)))
 	}
+	c07Assemble(c, uq)
 	c07LexSuperset(c, accepted)
 	c07Plumbing(c)
 	c07Numbers(c)
@@ -239,7 +241,7 @@ func c07Plumbing(c *Ctx) {
 	}
 	type want struct {
 		tok, helper, ctor string
-		constArg         string
+		constArg          string
 	}
 	wants := []want{
 		{"STRING", "unquoteString", "newStringLiteral", ""},
@@ -422,4 +424,83 @@ func c07Keywords(c *Ctx) {
 		})
 	}
 	r.Ob("KEYWORDS", "keywords are looked up by strings.ToLower(word)", "pkg/parser/lex.go", ok, "true/false/nil/null and the other keywords are recognised in any letter case")
+}
+
+// c07Assemble: the loops that assemble the decoded string from unquoteChar's results. unquoteChar returns a value
+// >= 0x80 with multibyte=false for \xHH and \ooo (one raw byte) and with multibyte=true for \u, \U and literal
+// runes (UTF-8 encoding); the caller must honour the flag.
+func c07Assemble(c *Ctx, uq *ssa.Function) {
+	r, t := c.R, c.T
+	n := 0
+	for _, f := range t.PkgFuncs(pParser) {
+		var calls []*ssa.Call
+		allInstrs(f, func(in ssa.Instruction) {
+			if call, ok := in.(*ssa.Call); ok && call.Call.StaticCallee() == uq {
+				calls = append(calls, call)
+			}
+		})
+		for ci, call := range calls {
+			n++
+			var val, multi *ssa.Extract
+			for _, ref := range *call.Referrers() {
+				if ex, ok := ref.(*ssa.Extract); ok {
+					switch ex.Index {
+					case 0:
+						val = ex
+					case 1:
+						multi = ex
+					}
+				}
+			}
+			key := fmt.Sprintf("%s unquoteChar call #%d", relName(f), ci+1)
+			if val == nil {
+				r.Ob("ASSEMBLE", key+" uses the decoded value", t.Pos(call.Pos()), false, "the value result is dropped")
+				continue
+			}
+			// every UTF-8 encoding of the value happens only when multibyte is true; a single-byte append exists
+			encs, okEnc, bytes := 0, true, 0
+			allInstrs(f, func(in ssa.Instruction) {
+				switch x := in.(type) {
+				case *ssa.Call:
+					cal := x.Call.StaticCallee()
+					if cal == nil || cal.Pkg == nil || cal.Pkg.Pkg.Path() != "unicode/utf8" || !strings.HasPrefix(cal.Name(), "EncodeRune") && !strings.HasPrefix(cal.Name(), "AppendRune") {
+						return
+					}
+					uses := false
+					for _, a := range x.Call.Args {
+						if a == ssa.Value(val) {
+							uses = true
+						}
+					}
+					if !uses {
+						return
+					}
+					encs++
+					guarded := false
+					for _, ec := range controlling(x.Block()) {
+						if multi != nil && ec.Cond == ssa.Value(multi) && ec.Pol {
+							guarded = true
+						}
+					}
+					if !guarded {
+						okEnc = false
+					}
+				case *ssa.Convert:
+					if x.X == ssa.Value(val) {
+						if b, ok := x.Type().Underlying().(*types.Basic); ok && b.Kind() == types.Uint8 {
+							bytes++
+						}
+						if b, ok := x.Type().Underlying().(*types.Basic); ok && b.Kind() == types.String {
+							// string(rune) encodes as UTF-8 unconditionally
+							encs++
+							okEnc = false
+						}
+					}
+				}
+			})
+			r.Ob("ASSEMBLE", key+" encodes the value as UTF-8 only when unquoteChar reports multibyte", t.Pos(call.Pos()), okEnc && encs > 0 && bytes > 0,
+				fmt.Sprintf("%d UTF-8 encodings of the value (all on the multibyte==true edge: %v), %d single-byte appends — \\x80…\\xff and \\200…\\377 denote one byte, not a rune", encs, okEnc, bytes))
+		}
+	}
+	r.FloorN("callers of unquoteChar", n, 1)
 }
